@@ -259,7 +259,23 @@ func fileCase(d desc, doc string, marker *cfg.Marker) lib.Case {
 		c.OracleOK = false
 		c.OracleMsg = "file path on the wire: " + w.Err
 	}
+	depParam(&c, d, marker, o.Accepted && cfg.Loadable(conf.Sources, conf.Integrations), w.Params)
 	return c
+}
+
+// depParam: a marker planted in a "dependencies" list must ARRIVE at the database — as a
+// statement parameter (latestDependency binds the list), never as text (the text oracle).
+func depParam(c *lib.Case, d desc, marker *cfg.Marker, ran bool, params []string) {
+	if marker == nil || !ran || !c.OracleOK || !strings.Contains(d.Path, "/dependencies/") {
+		return
+	}
+	for _, p := range params {
+		if p == marker.S {
+			return
+		}
+	}
+	c.OracleOK = false
+	c.OracleMsg = fmt.Sprintf("the dependency name %q did not arrive at the database as a statement parameter", marker.S)
 }
 
 func seedSources(seed string) []shconfig.Source {
@@ -291,6 +307,7 @@ func dashCase(d desc, doc string, marker *cfg.Marker) lib.Case {
 		c.OracleOK = false
 		c.OracleMsg = "Manager.Run did not return: a task of the stored integration never ended"
 	}
+	depParam(&c, d, marker, o.Stored, o.Params)
 	return c
 }
 
